@@ -87,16 +87,16 @@ type Exec struct {
 	apiDone    map[string]bool
 	apiThreads []string
 
-	Outcome    string // done hang horizon diverged violation
-	Ticks      int
-	postTicks  int
-	tickDead   bool
-	Diverged   string
-	Leaked     bool
+	Outcome   string // done hang horizon diverged violation
+	Ticks     int
+	postTicks int
+	tickDead  bool
+	Diverged  string
+	Leaked    bool
 	// EventsAtEnd is the number of events when the driver loop ended (later ones belong to the teardown).
 	EventsAtEnd int
-	EndDigest  string
-	Violations []*Violation
+	EndDigest   string
+	Violations  []*Violation
 	// Scratch space for monitors.
 	Mem map[string]any
 	// NonTrivial is set when at some point two different logical threads were enabled.
@@ -426,6 +426,11 @@ func RunExecution(t *testing.T, sc *Scenario, choose Chooser, mon Monitor, opt E
 
 func (x *Exec) run(choose Chooser, mon Monitor, opt ExecOpts) {
 	sc := x.Sc
+	if sc.SelectOrder == 2 {
+		SetSelectOrder(2)
+	} else {
+		SetSelectOrder(1)
+	}
 	pool, err := worker.New(context.Background(), "mc", worker.WithSize(64))
 	if err != nil {
 		panic(err)
